@@ -10,4 +10,6 @@ require (
 	pgregory.net/rapid v1.3.0
 )
 
+require github.com/absfs/inode v1.1.0 // indirect
+
 replace github.com/absfs/absnfs => /repo
